@@ -132,15 +132,20 @@ theorem C11_path_shortest {es : List (UC × UC)} (hr : Pint.Ctx.EdgeRefl es) {s 
       (∃ last, p'.getLast? = some last ∧ last.beq t = true) → p.length ≤ p'.length :=
   Pint.Ctx.bfs_shortest hr hs h
 
-/-- when the search ends without exhausting its fuel, "no path" means the destination is unreachable.
-    PARTIAL: the fuel hypothesis is needed — `Proofs/BfsFuelCounterexample.lean` exhibits a 12-layer graph
-    on which the model's polynomial fuel runs out; pint's own search has no fuel and no context graph in
-    pint's data or in the generated scenarios comes near that size (the harness compares every answer). -/
-theorem C11_path_none_partial {es : List (UC × UC)} (hr : Pint.Ctx.EdgeRefl es) {s t : UC}
-    (hs : s.beq s = true) (h : Pint.Ctx.findShortestPath es s t = none)
-    (hfuel : Pint.Ctx.bfsExhausts es t ((es.length + 2) * (es.length + 2) + 2) [(s, [s])] [] = false) :
+/-- "no path" means the destination is unreachable: no walk of the active graph leads from the source
+    dimension to a node equal to the destination.  Unconditional: the fuel `Pint.Ctx.bfsFuel es` of the
+    model is proved to bound the number of iterations of pint's (fuel-free) loop
+    (`Pint.Ctx.bfs_fuel_suffices`), although that loop marks nodes visited only when popped and its queue
+    may grow exponentially with the number of layers of the graph. -/
+theorem C11_path_none {es : List (UC × UC)} (hr : Pint.Ctx.EdgeRefl es) {s t : UC}
+    (hs : s.beq s = true) (h : Pint.Ctx.findShortestPath es s t = none) :
     ¬ ∃ p, Pint.Ctx.isPath es p = true ∧ p.head? = some s ∧ (∃ l, p.getLast? = some l ∧ l.beq t = true) :=
-  Pint.Ctx.bfs_none_unreachable hr hs h hfuel
+  Pint.Ctx.bfs_none_unreachable_full hr hs h
+
+/-- the model's loop never runs out of fuel -/
+theorem C11_fuel_suffices {es : List (UC × UC)} (hr : Pint.Ctx.EdgeRefl es) {s t : UC}
+    (hs : s.beq s = true) : Pint.Ctx.bfsExhausts es t (Pint.Ctx.bfsFuel es) [(s, [s])] [] = false :=
+  Pint.Ctx.bfs_fuel_suffices hr hs
 
 /-- the hypotheses are met by containers without duplicate keys (every container pint builds) -/
 theorem C11_edgeRefl {es : List (UC × UC)} (h : ∀ e ∈ es, (e.2.map (·.1)).Nodup) : Pint.Ctx.EdgeRefl es :=
@@ -148,5 +153,22 @@ theorem C11_edgeRefl {es : List (UC × UC)} (h : ∀ e ∈ es, (e.2.map (·.1)).
 
 example : Pint.Ctx.findShortestPath [([("[length]", 1)], [("[time]", 1)]), ([("[time]", 1)], [("[mass]", 1)])]
     [("[length]", 1)] [("[mass]", 1)] = some [[("[length]", 1)], [("[time]", 1)], [("[mass]", 1)]] := by decide +kernel
+
+/-- an unreachable destination (edges are directed): the search answers `none` -/
+example : Pint.Ctx.findShortestPath [([("[length]", 1)], [("[time]", 1)]), ([("[time]", 1)], [("[mass]", 1)])]
+    [("[mass]", 1)] [("[length]", 1)] = none := by decide +kernel
+
+def nd (i : Nat) : UC := [("x", (i : Rat))]
+
+/-- layers `{2j-1, 2j}`, `j = 1..d`, fully connected to the next layer; `0` is the start and `2d+1` the
+    target (the queue of the loop doubles at every layer: nodes are marked visited when popped) -/
+def layered (d : Nat) : List (UC × UC) :=
+  [(nd 0, nd 1), (nd 0, nd 2)] ++
+  (List.range (d - 1)).flatMap (fun j =>
+    [(nd (2*j+1), nd (2*j+3)), (nd (2*j+1), nd (2*j+4)), (nd (2*j+2), nd (2*j+3)), (nd (2*j+2), nd (2*j+4))]) ++
+  [(nd (2*d-1), nd (2*d+1)), (nd (2*d), nd (2*d+1))]
+
+example : Pint.Ctx.findShortestPath (layered 3) (nd 0) (nd 7) = some [nd 0, nd 1, nd 3, nd 5, nd 7] := by
+  decide +kernel
 
 end Pint.Props.C11
